@@ -888,6 +888,10 @@ class FG:
             # a 32-bit result has undefined upper bits: narrow cells only
             mem = self.mem_operand(r.choice(['i64', 'u64', 'i64'] + (['i32', 'u16'] if r.random() < 0.3 else [])
                                             if wide else ['i32', 'u32', 'i32', 'i16', 'u8']), write=True)
+            if mem is not None and mem.index is not None and not self.opts.get('ovf_mem_index', True):
+                # base + index: see design/C01.md, defect C01-23 (-O2 folds the address back into the store, RA
+                # computes it with LSH/ADD between the insn and the branch when base and index are spilled)
+                mem = Mem(mem.ty, mem.disp, mem.base)
             if mem is not None:
                 dst = mem
                 self.p.features.add('ovf:mem-result' + (':index' if mem.index is not None else ':disp' if mem.disp else ':plain'))
